@@ -740,6 +740,34 @@ def _session_ops(rng, ms, k, k2=None, extra_imp=None, tail=12):
     return ops
 
 
+def _shrink_session(case, clause, run_case, budget_s=3.0):
+    """Smallest request list (shortest failing prefix, then greedy removal of single requests) on which `clause`
+    still fails; run_case(case) -> {clause: message}.  Returns (case, message) or (case, None) if not reproducible."""
+    t0 = time.time()
+    ops = list(case["ops"])
+
+    def bad(o):
+        return clause in run_case(dict(case, ops=o))
+
+    lo, hi = 1, len(ops)
+    while lo < hi and time.time() - t0 < budget_s:
+        mid = (lo + hi) // 2
+        if bad(ops[:mid]):
+            hi = mid
+        else:
+            lo = mid + 1
+    ops = ops[:hi]
+    j = len(ops) - 2
+    while j >= 0 and time.time() - t0 < budget_s:
+        cand = ops[:j] + ops[j + 1 :]
+        if bad(cand):
+            ops = cand
+        j -= 1
+    small = dict(case, ops=ops)
+    msg = run_case(small).get(clause)
+    return (small, msg) if msg is not None else (case, None)
+
+
 _KINDS = {"layout": _check_layout, "triangle": _check_triangle, "response": _check_response, "reject": _check_reject, "session": _check_session}
 
 
@@ -896,7 +924,11 @@ def run(tier, seed):
             key = (clause, case["bank"]["bank"])
             dup[key] = dup.get(key, 0) + 1
             if dup[key] <= 2:  # keep the report readable: two witnesses per (clause, bank class)
-                col.fail(clause, case, msg)
+                if case["kind"] == "session" and len(case["ops"]) > 2:
+                    small, m = _shrink_session(case, clause, lambda c: dict(_evaluate(c)[0]))
+                    col.fail(clause, small, m if m is not None else msg)
+                else:
+                    col.fail(clause, case, msg)
         for key in ("worst_rel", "worst_abs", "gain_dev_over_thr", "cross_dev_over_thr"):
             if key in info:
                 worst[key] = max(worst.get(key, 0.0), info[key])
@@ -1031,7 +1063,7 @@ def run(tier, seed):
         bound=(
             f"BOUNDED ({tier}): grid 4 banks x {len(SCALES_QUICK) + (0 if quick else len(SCALES_MORE))} scale instances x num_filts {NUM_FILTS} x rates {RATES} x 3 ranges x flags "
             f"({len(grid)} configurations, visited in seeded order within the time budget) + seeded random configurations; triangle widths {widths}; "
-            f"sessions of ~50 requests (DFT widths 2m, 2m-1, m+1, m for m in {{32..256}} and seeded m < 200) on the banks reached in {sess_budget} s; "
+            f"sessions of ~50 requests (DFT widths 2m, 2m-1, m+1, m for m in {{32, 64, 128, 256}} and two seeded m < 200; two filters) on the banks reached in {sess_budget} s; "
             f"response clauses on {'a subset of filters (ends, middle, 2 random) of' if quick else 'all filters of'} the banks reached in the budget, DFT width <= {wcap}"
         ),
         assumptions=ASSUMPTIONS,
